@@ -138,11 +138,12 @@ var mutantCatalogue = map[string][]mutant{
 		{Name: "queue dispatch forgets the branch flag", File: "proc/mvp7-1/cu.go", Old: "\t\t\tif runner.Runner.InstructionType().IsConditionalBranch() {\n\t\t\t\tu.pendingConditionalBranch = true\n\t\t\t}\n\t\t} else {\n\t\t\tu.skippedInCurrentCycle = append(u.skippedInCurrentCycle, runner)", New: "\t\t} else {\n\t\t\tu.skippedInCurrentCycle = append(u.skippedInCurrentCycle, runner)"},
 	},
 	"C03": {
+		{Name: "sequence filter applies when NO limit is set", File: "proc/mvp6-3/wu.go", Old: "if r.sequenceID != -1 && execution.SequenceID > r.sequenceID {", New: "if r.sequenceID == -1 && execution.SequenceID > r.sequenceID {"},
+		{Name: "sequence filter negated", File: "proc/mvp7-0/wu.go", Old: "if r.sequenceID != -1 && execution.SequenceID > r.sequenceID {", New: "if !(r.sequenceID != -1 && execution.SequenceID > r.sequenceID) {"},
 		{Name: "second branch of a cycle not held", File: "proc/mvp6-2/cu.go", Old: "IsBranch() && u.pushedBranchInCurrentCycle {", New: "IsBranch() && !u.pushedBranchInCurrentCycle {"},
 		{Name: "decode goes on behind a jump in the same step", File: "proc/mvp7-0/du.go", Old: "\t\t\tjump = true\n", New: ""},
 		{Name: "flush keeps the pending queue", File: "proc/mvp7-0/cu.go", Old: "func (u *controlUnit) flush() {\n\tu.pendings = comp.NewQueue[risc.InstructionRunnerPc](pendingLength)\n", New: "func (u *controlUnit) flush() {\n"},
 		{Name: "flush drain ends while a unit is busy", File: "proc/mvp6-2/cpu.go", Old: "\t\t\t\t\t\tisEmpty = false\n", New: ""},
-		{Name: "fetch redirect without a new epoch", File: "proc/mvp6-1/fu.go", Old: "func (u *fetchUnit) reset(pc int32, cleanPending bool) {\n\tu.ctx.IncSequenceID()\n", New: "func (u *fetchUnit) reset(pc int32, cleanPending bool) {\n"},
 		{Name: "flush restarts one instruction later", File: "proc/mvp6-1/cpu.go", Old: "\t\t\tm.flush(pc)\n", New: "\t\t\tm.flush(pc + 4)\n"},
 		{Name: "execute unit never arms the check", File: "proc/mvp6-1/eu.go", Old: "\tu.bu.assert(u.runner)\n", New: ""},
 		{Name: "inner flush keeps the younger limit", File: "proc/mvp7-1/cpu.go", Old: "\t\t\t\t\t\t\tsequenceID = resp.sequenceID\n\t\t\t\t\t\t\tflush = resp.flush", New: "\t\t\t\t\t\t\tflush = resp.flush"},
@@ -159,6 +160,8 @@ var mutantCatalogue = map[string][]mutant{
 		{Name: "decode does not stall after a jump", File: "proc/mvp6-0/du.go", Old: "\t\t\tu.pendingBranchResolution = true\n", New: ""},
 	},
 	"C04": {
+		{Name: "in-order stall inverted", File: "proc/mvp5/eu.go", Old: "\tif ctx.IsWriteDataHazard(runner.Runner.ReadRegisters()) {", New: "\tif !ctx.IsWriteDataHazard(runner.Runner.ReadRegisters()) {"},
+		{Name: "in-order stall on the write set", File: "proc/mvp4/eu.go", Old: "\tif ctx.IsWriteDataHazard(runner.Runner.ReadRegisters()) {", New: "\tif ctx.IsWriteDataHazard(runner.Runner.WriteRegisters()) {"},
 		{Name: "dispatch when there ARE hazards", File: "proc/mvp7-0/cu.go", Old: "\tif len(hazards) == 0 {\n\t\tpushed := u.pushRunner", New: "\tif len(hazards) != 0 {\n\t\tpushed := u.pushRunner"},
 		{Name: "held-back dependence test inverted", File: "proc/mvp8-0/cu.go", Old: "\tif u.isDataHazardWithSkippedRunners(runner) {", New: "\tif !u.isDataHazardWithSkippedRunners(runner) {"},
 		{Name: "received forward value dropped", File: "proc/mvp7-0/eu.go", Old: "\t\t\tvalue = v\n", New: "\t\t\t_ = v\n"},
@@ -521,4 +524,3 @@ func thorough(ps *propSpec, r *Run, repo, verifDir string, extra map[string]any)
 	extra["self_validation_summary"] = fmt.Sprintf("%d seeded faults fired, %d behaviour-preserving variants kept the verdicts, %d skipped (construct no longer present)", fired, silent, skipped)
 	fmt.Printf("self-validation: %s\n", extra["self_validation_summary"])
 }
-
